@@ -2,6 +2,7 @@ package shimsim
 
 import (
 	"fmt"
+	"golang.org/x/crypto/ssh"
 	mrand "math/rand"
 	"sort"
 	"sync"
@@ -65,8 +66,10 @@ type Plan struct {
 	Certs     []CertSpec
 	CtorFault map[int]Fault
 	BadAddr   bool
-	Ops       []*Op
-	Data      map[uint64][]byte
+	// Comp: Option.PubKeyComp of the shim: 0 default, 1 ascending by encoding, 2 descending
+	Comp int
+	Ops  []*Op
+	Data map[uint64][]byte
 }
 
 // Cfg steers the history generator.
@@ -74,9 +77,9 @@ type Cfg struct {
 	Weights  map[OpKind]int
 	MinOps   int
 	MaxOps   int
-	FaultPct int  // percentage of agent-touching operations that get a fault
+	FaultPct int            // percentage of agent-touching operations that get a fault
 	FaultOps map[OpKind]int // per-kind override of FaultPct
-	Lapse    bool // include lapsing / dawning certificates and sleep across the edge
+	Lapse    bool           // include lapsing / dawning certificates and sleep across the edge
 	NoUp     *bool
 	Windows  []string
 	YSSHCA   int // percentage of certificates forced to carry a valid YSSHCA KeyID
@@ -99,6 +102,7 @@ var passphrases = [][]byte{[]byte("pw"), []byte("pw"), {}, []byte("other"), []by
 // GenPlan draws one history.
 func GenPlan(r *mrand.Rand, pool *Pool, cfg *Cfg, class string) *Plan {
 	p := &Plan{Class: class, Data: map[uint64][]byte{}}
+	p.Comp = core.Pick(r, 0, 0, 1, 2)
 	if cfg.NoUp != nil {
 		p.NoUp = *cfg.NoUp
 	} else {
@@ -361,7 +365,14 @@ func (p *Plan) Run(pool *Pool) *Result {
 // RunWith executes the plan with already minted certificates in the given mode.
 func (p *Plan) RunWith(pool *Pool, certs []*CertEnt, noup bool) *Result {
 	res := &Result{Plan: p, Certs: certs, NoUp: noup}
-	sim, err := NewSim(pool, noup, p.Initial, p.CtorFault, res.Certs)
+	var comp func(ssh.PublicKey, ssh.PublicKey) bool
+	switch p.Comp {
+	case 1:
+		comp = CompLess
+	case 2:
+		comp = CompGreater
+	}
+	sim, err := NewSimComp(pool, noup, p.Initial, p.CtorFault, res.Certs, comp)
 	if err != nil {
 		res.Err = err
 		return res
@@ -446,7 +457,7 @@ func (r *Result) Human() map[string]interface{} {
 			script = append(script, fmt.Sprintf("request %d: %s (executed first: %v)", i, f.Kind.Gallina(), f.Exec))
 		}
 	}
-	return map[string]interface{}{"no_upstream": r.NoUp, "agent_initially": r.Plan.Initial, "plain_keys": "blobs 1..6 = rsa2048, p256a, p384, p256b, ed25519a, ed25519b",
+	return map[string]interface{}{"no_upstream": r.NoUp, "pub_key_comp": []string{"default", "ascending by encoding", "descending by encoding"}[r.Plan.Comp], "agent_initially": r.Plan.Initial, "plain_keys": "blobs 1..6 = rsa2048, p256a, p384, p256b, ed25519a, ed25519b",
 		"certificates": certs, "faults": script, "constructed": r.Sim != nil && r.Sim.Built, "after_construction": r.Obs0.Human(), "steps": steps}
 }
 
@@ -511,7 +522,7 @@ func ScenarioPlans(r *mrand.Rand, pool *Pool, n int) []*Plan {
 	for i := 0; i < n; i++ {
 		k := uint64(1 + r.Intn(nk))
 		k2 := uint64(1 + (int(k)+r.Intn(nk-1))%nk)
-		p := &Plan{NoUp: r.Intn(2) == 0, Data: map[uint64][]byte{1: []byte("data-1"), 2: []byte("data-2")}}
+		p := &Plan{NoUp: r.Intn(2) == 0, Comp: core.Pick(r, 0, 1, 2), Data: map[uint64][]byte{1: []byte("data-1"), 2: []byte("data-2")}}
 		win := core.Pick(r, "current", "forever", "epoch-forever", "vb-2^63", "past", "future", "zero", "inverted", "va-2^63")
 		kid, kk := GenKeyID(r)
 		c := CertSpec{ID: pool.ReserveID(), KeyID: k, Window: win, KidText: kid, KidKind: kk}
